@@ -6,6 +6,11 @@ TECH = "machine-checked proof in Coq 8.16 of a hand-written executable model + c
 NOTE_COMMON = ("Trusted: Coq 8.16.1 kernel+VM (no native_compute), ExtrOcamlBasic extraction, OCaml glue (oracle/*.ml), Go harness + verif-tagged hooks, "
                "python driver. Modelled, not verified: the Go code; the per-run correspondence check is the tie. ")
 P = {
+ "C01": ("Crash.v: for every durable image at rest, every set of written pages, every crash point of the commit protocol and every fate (persisted / lost / torn) of every un-synced write - data pages and the meta page - "
+         "recovery yields the previous state with all its pages untouched, or the new state with all written pages durable; the new state iff its meta write was completely persisted; a completed commit re-establishes "
+         "the precondition (induction over histories). Pager.v: written pages are never pages of the previous version. Tie: crash images rebuilt from the RECORDED real writes at sector granularity, opened by the real "
+         "Open (content, Tx.Check, follow-up transaction, reopen) and, for a sample, by the extracted open_model + decoder.",
+         "OS assumptions: a completed fdatasync makes earlier writes durable; an un-synced write persists as any subset of its sectors; writes do not alter other pages. NoSync and initialisation of a new file are excluded.", "DESIGN.md §8 C01"),
  "C02": ("Pager.v: an 18-clause invariant of the page-level transaction system is proved inductive over every step (reader begin/end, writer begin with any admissible release, "
          "frees, allocations, commit, rollback) for unbounded histories; corollaries: pages of a version an open reader views are never written and never reusable. Spec.v: calls through a "
          "read transaction change nothing. Tie: every reader is re-dumped after every writer event and compared with the extracted Spec state of its begin.",
